@@ -2,13 +2,14 @@
     Property theorems only: each is closed by [exact] of a lemma proved under Proofs/, followed by
     [Print Assumptions].  Models: Model/CidQueue.v, CidState.v, PathResponses.v, AckRanges.v,
     PendingAcks.v, AckFrequency.v (tied to the code by the correspondence check on every run) and
-    Model/RetireQueue.v (model only).  Constants come from gen/Constants.v: a changed
+    Model/RetireQueue.v, Model/FrameLegality.v (model only).  Constants come from gen/Constants.v: a changed
     [CidQueue::LEN], [MAX_ACK_BLOCKS] or [MAX_PATH_RESPONSES] breaks the side conditions here. *)
 From QV Require Import Lib.Tac Lib.Corr gen.Constants
   Model.CidQueue Model.CidState Model.PathResponses Model.AckRanges Model.PendingAcks
-  Model.AckFrequency Model.RetireQueue
+  Model.AckFrequency Model.RetireQueue Model.FrameLegality
   Proofs.CidQueueProofs Proofs.CidStateProofs Proofs.PathResponsesProofs Proofs.PendingAcksProofs
-  Proofs.AckFrequencyProofs Proofs.RetireQueueProofs.
+  Proofs.AckRangesProofs Proofs.AckFrequencyProofs Proofs.RetireQueueProofs
+  Proofs.FrameLegalityProofs.
 Open Scope Z_scope.
 
 (** * 1. CidQueue: remote connection IDs driven by NEW_CONNECTION_ID frames.
@@ -177,21 +178,25 @@ Example C03_ack_frequency_example :
      [0; 26000; 30000; 30000; 30000]; [0; 30000; 30000; 30000; 30000]].
 Proof. vm_compute. reflexivity. Qed.
 
-(** * 6. The NEW_CONNECTION_ID arm and the queue of pending RETIRE_CONNECTION_ID frames. *)
-(** Refuted as "bounded": frames for an already retired sequence number are queued without any
-    check ([Err(InsertError::Retired)] path), one entry per frame. *)
+(** * 6. The NEW_CONNECTION_ID arm and the queue of pending RETIRE_CONNECTION_ID frames.
+    [RetireQueue.run false] is the arm as found, [RetireQueue.run true] the arm after the repair
+    (the [Err(InsertError::Retired)] path applies MAX_PENDING_RETIRED_CIDS too). *)
+(** Refuted as "bounded" for the code as found: frames for an already retired sequence number are
+    queued without any check, one entry per frame. *)
 Theorem C03_retire_queue_bounded_refuted : forall n : nat,
-  exists os s', RetireQueue.run CID_QUEUE_LEN true false (RetireQueue.init CID_QUEUE_LEN 0) os = RetireQueue.Continue s'
-                /\ Z.of_nat n < RetireQueue.pending s'.
+  exists os s',
+    RetireQueue.run false CID_QUEUE_LEN true false (RetireQueue.init CID_QUEUE_LEN 0) os
+      = RetireQueue.Continue s'
+    /\ Z.of_nat n < RetireQueue.pending s'.
 Proof. exact retire_queue_unbounded. Qed.
 Print Assumptions C03_retire_queue_bounded_refuted.
 
-(** Everything else is bounded: never a panic, only PROTOCOL_VIOLATION / CONNECTION_ID_LIMIT_ERROR
-    close the connection, and at most [10 * LEN + 4] entries are queued besides those pushed on
-    the Retired path. *)
-Theorem C03_retire_queue_bound : forall cu sv id os,
+(** Both variants: never a panic, only PROTOCOL_VIOLATION / CONNECTION_ID_LIMIT_ERROR close the
+    connection, and at most [10 * LEN + 4] entries are queued besides those pushed on the Retired
+    path. *)
+Theorem C03_retire_queue_bound_except_retired_path : forall fx cu sv id os,
   Forall RetireQueueProofs.wf_op os ->
-  match RetireQueue.run CID_QUEUE_LEN cu sv (RetireQueue.init CID_QUEUE_LEN id) os with
+  match RetireQueue.run fx CID_QUEUE_LEN cu sv (RetireQueue.init CID_QUEUE_LEN id) os with
   | RetireQueue.Continue s =>
       0 <= RetireQueue.pending s
         <= RetireQueue.max_pending CID_QUEUE_LEN + 4 + RetireQueue.retired_hits s
@@ -200,4 +205,100 @@ Theorem C03_retire_queue_bound : forall cu sv id os,
   | RetireQueue.Panic => False
   end.
 Proof. exact (retire_queue_bound_lemma CID_QUEUE_LEN eq_refl). Qed.
-Print Assumptions C03_retire_queue_bound.
+Print Assumptions C03_retire_queue_bound_except_retired_path.
+
+(** After the repair, at full strength: for every frame sequence, zero-length or not, client or
+    server, the queue never holds more than [10 * LEN + 4] entries. *)
+Theorem C03_retire_queue_bounded : forall cu sv id os,
+  Forall RetireQueueProofs.wf_op os ->
+  match RetireQueue.run true CID_QUEUE_LEN cu sv (RetireQueue.init CID_QUEUE_LEN id) os with
+  | RetireQueue.Continue s =>
+      0 <= RetireQueue.pending s <= RetireQueue.max_pending CID_QUEUE_LEN + 4
+  | RetireQueue.Close c =>
+      c = RetireQueue.PROTOCOL_VIOLATION \/ c = RetireQueue.CONNECTION_ID_LIMIT_ERROR
+  | RetireQueue.Panic => False
+  end.
+Proof. exact (retire_queue_bounded_lemma CID_QUEUE_LEN eq_refl). Qed.
+Print Assumptions C03_retire_queue_bounded.
+
+Example C03_retire_queue_example :
+  match RetireQueue.run true 5 true false (RetireQueue.init 5 0)
+          [RetireQueue.Frame 1 1 1; RetireQueue.Frame 0 0 2; RetireQueue.Frame 7 3 3] with
+  | RetireQueue.Continue s => RetireQueue.pending s = 7
+  | _ => False
+  end.
+Proof. vm_compute. reflexivity. Qed.
+
+(** ** 4b. PendingAcks at set level: canonical ranges and exact per-operation semantics. *)
+Theorem C03_pending_acks_canonical : forall os,
+  Forall PendingAcksProofs.wf_op os ->
+  exists s outs, PendingAcksProofs.exec MAX_ACK_BLOCKS PendingAcks.init os = Some s /\
+                 PendingAcks.run_ops MAX_ACK_BLOCKS PendingAcks.init os = Some outs /\
+                 AckRangesProofs.WInv MAX_ACK_BLOCKS s.
+Proof. apply pending_acks_canonical_lemma. vm_compute. discriminate. Qed.
+Print Assumptions C03_pending_acks_canonical.
+
+(** [insert_one p] on a reachable state: the set becomes S + {p}; only if that needs more than
+    [M] ranges is anything dropped, and then exactly the LOWEST run, every element of which is
+    below every element kept. *)
+Theorem C03_pending_acks_insert_one_spec : forall M s p now s',
+  0 <= M -> AckRangesProofs.WInv M s -> 0 <= p -> PendingAcks.insert_one M s p now = Some s' ->
+  AckRangesProofs.WInv M s' /\
+  let l1 := AckRanges.insert (PendingAcks.ranges s) p (p + 1) in
+  AckRangesProofs.wf_from (-1) l1 /\
+  (forall x, AckRanges.mem l1 x = AckRanges.mem (PendingAcks.ranges s) x || (x =? p)) /\
+  (Z.of_nat (length l1) <= M -> PendingAcks.ranges s' = l1) /\
+  (M < Z.of_nat (length l1) ->
+     exists a b r, l1 = (a, b) :: r /\ PendingAcks.ranges s' = r /\
+       (forall x, AckRanges.mem r x = AckRanges.mem l1 x && (b <=? x)) /\
+       (forall x y, AckRangesProofs.in_rng a b x = true -> AckRanges.mem r y = true -> x < y)).
+Proof. exact insert_one_spec. Qed.
+Print Assumptions C03_pending_acks_insert_one_spec.
+
+Theorem C03_pending_acks_subtract_below_spec : forall M s m s',
+  AckRangesProofs.WInv M s -> 0 <= m -> PendingAcks.subtract_below s m = Some s' ->
+  AckRangesProofs.WInv M s' /\
+  (forall x, AckRanges.mem (PendingAcks.ranges s') x
+             = AckRanges.mem (PendingAcks.ranges s) x && (m <? x)).
+Proof. exact subtract_below_spec. Qed.
+Print Assumptions C03_pending_acks_subtract_below_spec.
+
+Example C03_pending_acks_example :
+  PendingAcks.run [[0; 5; 1]; [0; 7; 2]; [0; 6; 3]; [1; 5]; [3]]
+  = [[1; 5; 6]; [2; 5; 8]; [1; 5; 8]; [1; 6; 8]; [1; 6; 8]].
+Proof. vm_compute. reflexivity. Qed.
+
+(** * 7. Frame legality: frame kind x packet space x receiving side.
+    A placement the RFCs forbid is answered with PROTOCOL_VIOLATION, except the listed lenient
+    placements (ACK / PATH_RESPONSE in 0-RTT, APPLICATION_CLOSE in Initial/Handshake), which reach
+    the ordinary handler or drain the connection; a permitted placement is dispatched, except
+    APPLICATION_CLOSE in 0-RTT (PROTOCOL_VIOLATION).  Checked over all 24 x 4 x 2 combinations. *)
+Theorem C03_violation_class_table : forall f sp sd,
+  match FrameLegality.legal f sp sd with
+  | FrameLegality.Unreachable => sp = FrameLegality.ZeroRtt /\ sd = FrameLegality.Client
+  | o =>
+      (FrameLegality.rfc_permits f sp sd = false ->
+         o = FrameLegality.Err FrameLegality.PROTOCOL_VIOLATION \/
+         (FrameLegality.lenient f sp sd = true /\
+          (o = FrameLegality.Dispatch \/ o = FrameLegality.Drain))) /\
+      (FrameLegality.rfc_permits f sp sd = true ->
+         (o = FrameLegality.Dispatch \/ o = FrameLegality.Drain) \/
+         (FrameLegality.stricter f sp sd = true /\
+          o = FrameLegality.Err FrameLegality.PROTOCOL_VIOLATION))
+  end.
+Proof. exact violation_class_table_lemma. Qed.
+Print Assumptions C03_violation_class_table.
+
+Theorem C03_violation_class_table_rows : forall f sp sd, FrameLegality.row_ok f sp sd = true.
+Proof. exact row_ok_all. Qed.
+Print Assumptions C03_violation_class_table_rows.
+
+Example C03_frame_legality_example :
+  FrameLegality.legal FrameLegality.Stream FrameLegality.Initial FrameLegality.Server
+    = FrameLegality.Err 10 /\
+  FrameLegality.legal FrameLegality.HandshakeDone FrameLegality.OneRtt FrameLegality.Server
+    = FrameLegality.Err 10 /\
+  FrameLegality.legal FrameLegality.HandshakeDone FrameLegality.OneRtt FrameLegality.Client
+    = FrameLegality.Dispatch /\
+  length FrameLegality.table = 192%nat.
+Proof. vm_compute. repeat split; reflexivity. Qed.
